@@ -25,8 +25,8 @@ ASSUMPTIONS = [
     "if both configurations raise the same exception type the case is counted 'both aborted' (nothing to compare)",
 ]
 BUDGET = {
-    "quick": {"cases": 1600, "seconds": 60, "shards": 8},
-    "thorough": {"cases": 24000, "seconds": 540, "shards": 16},
+    "quick": {"cases": 6400, "seconds": 90, "shards": 8},
+    "thorough": {"cases": 120000, "seconds": 900, "shards": 16},
 }
 REQUIRED_OBS = ["snapshots_compared", "predictions_compared", "ext:txt", "ext:csv", "model:supervised", "model:semi", "model:unsup",
                 "get_distances_checked", "asymmetric_metric_cases"]
